@@ -1,0 +1,9 @@
+//go:build verif
+
+package ringbuffer
+
+// VerifReset empties the built-in ring-buffer pool and forgets its calibration, so that a
+// correspondence run starts from a known pool state.
+func VerifReset() {
+	builtinPool = Pool{}
+}
